@@ -82,26 +82,29 @@ class Sim:
         self._in_sched = False  # wake predicates may call traced halmos code: never pre-empt there
         self.idle_labels = {"pool.idle"}
         # an asynchronous interrupt (a signal handler): runs on the stack of one task at one of its scheduling points
-        self.interrupt: dict | None = None
+        self.interrupts: list[dict] = []
 
     def set_interrupt(self, task_name: str, after_steps: int, handler):
-        """handler() is called on the stack of the named task at its first scheduling point once `after_steps` scheduler steps
-        have passed (at quiescence at the latest); it may raise, like a signal handler calling sys.exit"""
-        self.interrupt = dict(task=task_name, due=after_steps, handler=handler, delivered=False)
+        """handler() is called on the stack of the named task at its first call-boundary scheduling point once `after_steps`
+        scheduler steps have passed (at quiescence at the latest); it may raise, like a signal handler calling sys.exit.
+        Several interrupts may be armed; a later one can land while the handler of an earlier one is running."""
+        self.interrupts.append(dict(task=task_name, due=after_steps, handler=handler, delivered=False))
 
-    def _interrupt_due(self, t: Task) -> bool:
-        it = self.interrupt
-        return it is not None and not it["delivered"] and t.name == it["task"] and self.steps >= it["due"]
+    def _interrupt_due(self, t: Task) -> dict | None:
+        for it in self.interrupts:
+            if not it["delivered"] and t.name == it["task"] and self.steps >= it["due"]:
+                return it
+        return None
 
     def _deliver(self, me: Task) -> bool:
-        if not self._interrupt_due(me):
+        it = self._interrupt_due(me)
+        if it is None:
             return False
         if me.label.startswith("line:"):
             # CPython runs signal handlers only where the eval loop checks for them (calls, function entry, backward jumps),
             # never between the end of a `with` body and the call of __exit__; a line-level pre-emption point can be exactly
             # there, so interrupts are delivered at call boundaries (the shims' yield points) only
             return False
-        it = self.interrupt
         it["delivered"] = True
         self.fault("interrupt_delivered")
         self._log(me.name, "interrupt:" + me.label.split(":")[0])
@@ -232,7 +235,7 @@ class Sim:
                     out.append(t)
                 elif t.deadline <= now:
                     out.append(t)
-                elif self._interrupt_due(t):
+                elif self._interrupt_due(t) is not None:
                     out.append(t)
         # the current task first, so that choice 0 means "no context switch"
         if me in out:
@@ -269,10 +272,12 @@ class Sim:
             if runnable:
                 break
             nt = self._next_time()
-            if nt == INF and self.interrupt is not None and not self.interrupt["delivered"] and self.interrupt["due"] > self.steps \
-                    and any(t.name == self.interrupt["task"] and t.state != "done" for t in self.tasks):
-                self.interrupt["due"] = self.steps  # nothing else can happen: the signal arrives now
-                continue
+            if nt == INF:
+                late = next((it for it in self.interrupts if not it["delivered"] and it["due"] > self.steps
+                             and any(t.name == it["task"] and t.state != "done" for t in self.tasks)), None)
+                if late is not None:
+                    late["due"] = self.steps  # nothing else can happen: the signal arrives now
+                    continue
             if nt == INF:
                 self.deadlock_info = [f"{t.name}:{t.label}" for t in self.tasks if t.state == "blocked"]
                 # idle workers of a thread pool nobody shut down are not a hang: in the stdlib they are reaped
